@@ -43,6 +43,9 @@ CHECKS["C10"] = dict(design="4 C10", technique="TLA+ spec (BuildPool: pooled bui
 CHECKS["C11"] = dict(design="4 C11", technique="TLA+ spec (CtxPool: multi-process pool protocol) model-checked by TLC for every interleaving; every schedule replayed with parked visitors and pool snapshots (verif hook); concurrent readers under the race detector validated by TLC (TraceLife)",
     note="Trusted: TLC; Go's race detector as dynamic monitor of the data-race clause on the schedules that ran; the pool snapshot hook (GOMAXPROCS(1), collector parked). A duplicate in a snapshot is sound evidence of a double Put; a missing object is never evidence.",
     text="CtxPool.tla models Get / callback / Put of VisitStoredFields (visitors may park in any callback or stop early), DocID and the stored-field phase of a cancelled merge for 2 (quick) / 3 (thorough) goroutines; TLC checks Exclusive (one owner per scratch object, never twice in the pool) on every interleaving and refutes the original double-Put design on every run. Every distinct schedule is replayed on the real code with visitors parked at the callbacks: after each step the pool is snapshotted through the verif hook (no object twice), callback values are compared with StoredOf, bytes handed to a parked visitor are hashed before parking and after resuming. Then 8 goroutines make complete observations of shared built / opened / merged segments (each starting with an early-stopped visit) while merges use the segments as inputs, under -race; every observation is validated by TLC against the sequential answer.")
+CHECKS["C20"] = dict(design="4 C20", technique="TLA+ spec (RefCount, holders as processes) model-checked by TLC; every behaviour that releases the last reference replayed on a real mmap-opened file with /proc inspection; concurrent holders under the race detector",
+    note="Trusted: TLC; /proc/self/maps and /proc/self/fd; Go's race detector for the unlocked-counter clause on the schedules that ran. Holders use the API balanced (only while owning a reference).",
+    text="RefCount.tla models refs / mapping / descriptor with AddRef, DecRef, Close, read and hand-over between 2 (quick) / 3 (thorough) holders; TLC checks RefSafe (mapped and descriptor open iff refs > 0, unmapped at most once, last release without error, every owner finds the mapping) over all interleavings up to 6 / 8 operations and emits every behaviour that ends with the last release. Each is replayed on a fresh copy of a real segment file: after every operation /proc/self/maps and /proc/self/fd are inspected (exactly one mapping and descriptor while references remain, none afterwards), a complete read is compared with the tables TLC emitted, and the last release must return nil. Closing an in-memory segment must return nil. Concurrent holders and readers run under -race.")
 HOOK_COMMITS = ["f76ac2a"]
 
 NA = {}
